@@ -146,12 +146,16 @@ HNext(e) ==
      IF e.op \in {"deliver", "dup", "park"} /\ e.found /\ e.k = "resp" /\ e.t = n /\ e.rq = n
      THEN [h EXCEPT !.ans = @ \cup {e.tg}]
      ELSE IF ~Has(e, "n") \/ e.n # n THEN h
+     ELSE IF e.op = "retrieve" /\ e.err
+     THEN \* the call gave up (deadline) but the retrieval goes on in the background: its bit and its chunk arrive later,
+          \* in an order the recording cannot see - the node's record is not judged for the rest of the scenario
+          [h EXCEPT !.del = FALSE, !.ddel = FALSE, !.prog = "retrieve"]
      ELSE IF e.op \in {"init", "retrieve"} THEN [h EXCEPT !.del = FALSE, !.ddel = FALSE]   \* a new download may register the file again
      ELSE IF e.op = "delfile" /\ Has(e, "blocked") THEN [h EXCEPT !.prog = IF ns[n].pst THEN "delfile" ELSE "-"]
      ELSE IF e.op = "deldisc" /\ Has(e, "blocked") THEN [h EXCEPT !.prog = "deldisc"]
      ELSE IF e.op = "delfile" /\ e.code = 200 THEN [h EXCEPT !.del = ~WasRunning(n), !.ddel = ~WasRunning(n)]
      ELSE IF e.op = "deldisc" THEN [h EXCEPT !.ddel = ~WasRunning(n)]
-     ELSE IF e.op = "release" THEN [h EXCEPT !.prog = "-",
+     ELSE IF e.op = "release" /\ h.prog # "retrieve" THEN [h EXCEPT !.prog = "-",
                                              !.del = IF h.prog = "delfile" THEN ~WasRunning(n) ELSE @,
                                              !.ddel = IF h.prog \in {"delfile", "deldisc"} THEN ~WasRunning(n) ELSE @]
      ELSE h]
